@@ -26,6 +26,7 @@ import numpy as np
 import onnx
 
 from harness import serde_common as sc
+from harness import serde_meta as sm
 from harness.common import Ctx, Part, lean_batch, load_corpus, pmap
 
 THEOREMS = [
@@ -34,12 +35,23 @@ THEOREMS = [
     "IrVerif.Scope.C03_roundtrip_model",
     "IrVerif.Scope.C03_twice",
     "IrVerif.Scope.C03_pure",
+    "IrVerif.Scope.C03_meta_roundtrip",
+    "IrVerif.Scope.C03_roundtrip_decorated",
+    "IrVerif.Scope.C03_pure_decorated",
 ]
 ASSUMPTIONS = [
-    "value-info content and tensor payloads are opaque tokens in the model; operator identity, non-graph "
-    "attributes, metadata and device configurations are compared by the oracle only; functions are part of the "
-    "model (C03_roundtrip_model, scope.mser) for IR version >= 10, their attributes / opset imports / doc and "
-    "the IR < 10 experimental value-info format are oracle-only",
+    "value-info content and tensor payloads are opaque tokens in the model; non-graph node attributes are compared by "
+    "the oracle only; functions are part of the core model (C03_roundtrip_model, scope.mser) for IR version >= 10",
+    "decoration layer (Model/ScopeMeta.lean, scope.dser): metadata_props of model / graph / node / function, opset "
+    "imports, doc strings / names / producer fields, model and node device configurations, function attributes: "
+    "C03_meta_roundtrip (hypothesis wfModelDB = the dicts read from the IR have distinct keys; counter deco_wf) and "
+    "the real to_proto / from_proto are compared with serModelD / deserModelD on every case; that to_proto leaves "
+    "the decorations of the real objects alone rests on the deep-snapshot oracle (C03_pure_decorated holds by "
+    "construction of the model)",
+    "extended model (Model/ScopeExt.lean, scope.eser; main graph and nested graphs): merged value metadata, "
+    "quantization annotations, sharding values: differential only on the IR -> proto -> IR direction (serialized "
+    "proto, second serialization, reloaded IR incl. the extension state are compared on every case); the IR < 10 "
+    "experimental function value-info format is modelled on the C17 side (scope.mdeser9) and oracle-only here",
     "graphs nest as a tree (a Graph object shared between two attributes is outside the model)",
     "OUTSIDE the property as checked (hypotheses of the theorems and gate of the isomorphism oracle): a graph that "
     "lists as output a value it does not define (e.g. sub = Graph([], [y_outer]) with y_outer produced in the "
@@ -586,6 +598,23 @@ def run_case(part, gen_seed: int, p_odd: float, lean_reqs: list, pending: list) 
     case = {"gen_seed": gen_seed, "p_odd": p_odd}
     for k, v in gen.hist.items():
         part.count(k, v)
+    decorate_ir(random.Random(gen_seed ^ 0x5EED), model, part)
+    # ---- decoration layer (Model/ScopeMeta.lean): pre-state of the decorations
+    deco0 = None
+    try:
+        deco0 = sm.ir_model_to_deco(model)
+    except sc.OutsideModel as e:
+        part.count(f"deco_outside_model={e.args[0][:30]}")
+    except RecursionError:
+        part.count("deco_outside_model=recursion")
+    # ---- extended model (Model/ScopeExt.lean): value metadata, quantization annotations, sharding values
+    we0 = None
+    try:
+        we0 = sm.ir_graph_to_world_ext(model.graph, {})
+    except sc.OutsideModel as e:
+        part.count(f"ext_outside_model={e.args[0][:30]}")
+    except Exception as e:  # noqa: BLE001 - e.g. a tensor that cannot produce bytes
+        part.count(f"ext_outside_model=dump:{type(e).__name__}")
     reason = sc.serializable_reason(model)
     # ---- model request (pre-state)
     world0 = None
@@ -674,6 +703,12 @@ def run_case(part, gen_seed: int, p_odd: float, lean_reqs: list, pending: list) 
     elif reason is None:
         part.fail("roundtrip:to_proto-raises:" + type(sc.root_cause(err)).__name__,
                   f"to_proto raised on a serializable model: {sc.root_cause(err)!s:.200}", case)
+    if we0 is not None:
+        lean_reqs.append({"m": "scope.eser", "w": we0["world"], "ext": we0["ext"], "ver": int(model.ir_version)})
+        pending.append(("E", case, model, p1, err, m2))
+    if deco0 is not None:
+        lean_reqs.append({"m": "scope.dser", "w": deco0})
+        pending.append(("D", case, deco0, model, p1, err, m2))
     if world0 is not None:
         lean_reqs.append({"m": "scope.ser", "w": world0})
         pending.append((case, flags, world0, model, p1, err, m2))
@@ -681,6 +716,146 @@ def run_case(part, gen_seed: int, p_odd: float, lean_reqs: list, pending: list) 
         part.count("model_with_functions")
         lean_reqs.append({"m": "scope.mser", "w": worldM})
         pending.append(("M", case, model, p1, err, m2))
+
+
+def decorate_ir(rng, model, part) -> None:
+    """several metadata keys in non-sorted insertion order on model / graphs / nodes / functions, more opset
+    imports: what the decoration layer's dict rules are about (a third of the cases)"""
+    if rng.random() > 0.35:
+        return
+    part.count("decorated")
+    keys = ["zz", "b", "a", "é", "A", ""]
+
+    def fill(d):
+        for k in rng.sample(keys, k=rng.randrange(1, 4)):
+            d[k] = rng.choice(["1", "", "v"])
+
+    if rng.random() < 0.6:
+        fill(model.metadata_props)
+    graphs = [g for g0 in sc.model_graphs(model) for g in sc.iter_graph_tree(g0)]
+    for g in rng.sample(graphs, k=min(len(graphs), 2)):
+        if rng.random() < 0.5:
+            fill(g.metadata_props)
+        if rng.random() < 0.3:
+            g.doc_string = rng.choice(["", "gdoc2"])
+        nodes = list(g)
+        if nodes and rng.random() < 0.7:
+            fill(rng.choice(nodes).metadata_props)
+    if rng.random() < 0.4:
+        model.graph.opset_imports[rng.choice(["custom", "z.dom", "a.dom"])] = rng.choice([1, 2])
+    for f in model.functions.values():
+        if rng.random() < 0.5:
+            fill(f.metadata_props)
+        if rng.random() < 0.3:
+            f.opset_imports[rng.choice(["custom", "z.dom"])] = 1
+
+
+def diff_deco(part, out: dict, case, deco0, model, p1, err, m2) -> None:
+    """decorations (metadata, opset imports, doc / name / producer fields, device configurations, function
+    attributes): `serModelD` / `deserModelD` of the Lean model against to_proto / from_proto"""
+    if "err" in out and "wf" not in out:
+        part.disagree("driver error (scope.dser): " + str(out["err"])[:200], case, out, None)
+        return
+    part.count("deco_cases")
+    part.count(f"deco_wf={out.get('wf')}")  # hypothesis of C03_meta_roundtrip (share published)
+    if out.get("wf") is not True:
+        part.disagree("decorations read from the real IR have a repeated dict key", case, out.get("wf"), True)
+        return
+    if out.get("ser_ok"):
+        if out.get("ser2_ok") is not True or out.get("q2") != out.get("q") or out.get("reload") != out.get("canon"):
+            part.count("model_deco_roundtrip_broken")
+            part.disagree("model: C03_meta_roundtrip contradicted by the driver", case, out.get("reload"), out.get("canon"))
+    if p1 is None:
+        r = sc.root_cause(err)
+        if any(k in str(r) for k in sm.DEVICE_ERRORS):
+            if out.get("ser_ok"):
+                part.disagree("to_proto raises on a device configuration, the model serializes the decorations",
+                              case, "ok", str(r)[:100])
+            else:
+                part.count("deco_both_raise")
+        return
+    if not out.get("ser_ok"):
+        part.disagree("model: serializing the decorations raises, to_proto returns", case, out.get("ser_err"), "ok")
+        return
+    try:
+        real_q = sm.model_proto_to_deco(p1)
+    except (sc.OutsideModel, RecursionError) as e:
+        part.count(f"deco_proto_outside_model={str(e)[:30]}")
+        return
+    if real_q != out["q"]:
+        d = sm.first_difference(real_q, out["q"])
+        part.disagree(f"decorations of the serialized proto differ at {d}", case, out["q"], real_q)
+        return
+    part.count("deco_proto_agrees")
+    if m2 is None:
+        return
+    try:
+        real2 = sm.ir_model_to_deco(m2)
+    except (sc.OutsideModel, RecursionError):
+        return
+    if real2 != out["reload"]:
+        d = sm.first_difference(real2, out["reload"])
+        part.disagree(f"decorations of from_proto(to_proto(m)) differ at {d}", case, out["reload"], real2)
+        return
+    part.count("deco_reload_agrees")
+
+
+def diff_ext(part, out: dict, case, model, p1, err, m2) -> None:
+    """extended model (merged value metadata, quantization annotations, sharding values): `serializeE` /
+    `deserializeE` of the Lean model against to_proto / from_proto on the main graph"""
+    if "err" in out and "ser_ok" not in out:
+        part.disagree("driver error (scope.eser): " + str(out["err"])[:200], case, out, None)
+        return
+    part.count("ext_cases")
+    func_devs = any(n.device_configurations for f in model.functions.values() for n in f.graph.all_nodes())
+    if p1 is None:
+        r = sc.root_cause(err)
+        if any(k in str(r) for k in sm.DEVICE_ERRORS):
+            if out.get("ser_ok") and not func_devs:
+                part.disagree("to_proto raises on a device configuration, the extended model serializes", case,
+                              "ok", str(r)[:100])
+            elif not out.get("ser_ok"):
+                part.count("ext_both_raise")
+        return
+    if not out.get("ser_ok"):
+        part.disagree("extended model: serialization raises, to_proto returns", case, out.get("ser_err"), "ok")
+        return
+    if _d107_trigger(model):
+        part.count("d107_stale_tensor_metadata")
+        return
+    try:
+        real_p = sm.graph_proto_to_ext(p1.graph, {})
+    except (sc.OutsideModel, RecursionError) as e:
+        part.count(f"ext_proto_outside_model={str(e)[:30]}")
+        return
+    if len(p1.functions) and p1.ir_version < 10:
+        real_p["vinfo"] = [v for v in real_p["vinfo"] if not ("::" in v[0] and "/" in v[0])]
+    if real_p != out["p"]:
+        d = sm.first_difference(real_p, out["p"])
+        part.disagree(f"extended model: serialized main graph differs at {d}", case, out["p"], real_p)
+        return
+    part.count("ext_proto_agrees")
+    if any(len(q[1]) for q in real_p["quant"]):
+        part.count("ext_with_quant_annotation")
+    if out.get("ser2_ok") is not True or out.get("p2") != out["p"]:
+        part.disagree("extended model: second serialization differs from the first", case, out.get("p2"), out["p"])
+    if m2 is None:
+        return
+    if not out.get("deser_ok"):
+        part.disagree("extended model: deserializeE(serializeE w) raises, from_proto returns", case, out.get("err"), "ok")
+        return
+    if len(p1.functions) and p1.ir_version < 10:
+        return  # the reloaded main graph was built with the experimental entries of the functions in its value_info
+    try:
+        real2 = sm.canon_world_ext(sm.ir_graph_to_world_ext(m2.graph, {}))
+    except (sc.OutsideModel, RecursionError):
+        return
+    mod2 = sm.canon_world_ext({"world": out["world2"], "ext": out["ext2"]})
+    if real2 != mod2:
+        d = sm.first_difference(real2, mod2)
+        part.disagree(f"extended model: deserializeE(serializeE w) differs at {d}", case, mod2, real2)
+        return
+    part.count("ext_reload_agrees")
 
 
 def diff_case_model(part, out: dict, case, model, p1, err, m2) -> None:
@@ -881,6 +1056,10 @@ def _worker(args) -> Part:
     for out, p in zip(lean_batch(reqs), pending):
         if p[0] == "M":
             diff_case_model(part, out, *p[1:])
+        elif p[0] == "D":
+            diff_deco(part, out, *p[1:])
+        elif p[0] == "E":
+            diff_ext(part, out, *p[1:])
         else:
             diff_case(part, out, *p)
     return part
@@ -920,6 +1099,10 @@ def replay(ctx: Ctx, obj: dict) -> None:
     for out, p in zip(lean_batch(reqs), pending):
         if p[0] == "M":
             diff_case_model(part, out, *p[1:])
+        elif p[0] == "D":
+            diff_deco(part, out, *p[1:])
+        elif p[0] == "E":
+            diff_ext(part, out, *p[1:])
         else:
             diff_case(part, out, *p)
     ctx.merge(part)
